@@ -55,6 +55,44 @@ func c13Scenarios(r *rng) []faultScenario {
 			{op: opOpenFile, path: "/PS3ISO/g.iso"}, {op: opReadFile, a: 5000, b: 2 * 2048}, {op: opReadFile, a: 3000, b: 5000},
 			{op: opReadFileCritical, a: 4096, b: 4096}, {op: opStatFile, path: "/PS3ISO/g.iso"}}})
 	}
+	// (c1) keys in both places / only beside the image: a fault while looking for the first key must not
+	// make the server decrypt with the other one or hand out the ciphertext
+	for _, both := range []bool{true, false} {
+		t := &tree{}
+		t.add(tnode{path: "/", kind: 'd', mtime: genMtime(r)})
+		t.add(tnode{path: "/PS3ISO", kind: 'd', mtime: genMtime(r)})
+		im := genEncImage(r, "/PS3ISO/g.iso", 20, 0)
+		im.regs = []refRegion{{0, 2}, {5, 20}}
+		im.node.overlays = []overlay{{0, tableBytes(im.regs)}}
+		t.add(im.node)
+		t.add(keyFileNode("/PS3ISO/g.dkey", randKey(r), r, 0))
+		name := "encrypted-adjacent"
+		if both {
+			name = "encrypted-both"
+			t.add(tnode{path: "/REDKEY", kind: 'd', mtime: genMtime(r)})
+			t.add(keyFileNode("/REDKEY/g.dkey", randKey(r), r, 0))
+		}
+		out = append(out, faultScenario{name: name, t: t, reqs: []creq{
+			{op: opOpenFile, path: "/PS3ISO/g.iso"}, {op: opReadFile, a: 5000, b: 2 * 2048}, {op: opReadFileCritical, a: 4096, b: 4096}}})
+	}
+	// (c3) CD image with 2336-byte sectors: a fault while probing the sector size must not make READ_CD
+	// serve bytes from offsets computed with the default size
+	{
+		t := &tree{}
+		t.add(tnode{path: "/", kind: 'd', mtime: genMtime(r)})
+		n := tnode{path: "/cd.bin", kind: 'f', size: 0x200000 + 4096, seed: sparseSeed, mtime: genMtime(r)}
+		n.overlays = append(n.overlays, overlay{24 + 16*2336, []byte("\x01CD001")})
+		for _, sct := range []int64{0, 1, 5, 6, 17} {
+			d := make([]byte, 64)
+			for i := range d {
+				d[i] = byte(r.next())
+			}
+			n.overlays = append(n.overlays, overlay{24 + sct*2336 + int64(r.intn(1900)), d})
+		}
+		t.add(n)
+		out = append(out, faultScenario{name: "cd", t: t, reqs: []creq{
+			{op: opOpenFile, path: "/cd.bin"}, {op: opReadCD2048, a: 0, b: 2}, {op: opReadCD2048, a: 5, b: 2}, {op: opReadCD2048, a: 17, b: 1}}})
+	}
 	// (c2) 3k3y image: masked and decrypted bytes must stay so when they arrive together with an error
 	{
 		t := &tree{}
